@@ -15,7 +15,7 @@ struct GHeap { bool alive = false; bool destroyable = false; int arena = -1; int
 struct Profile {
   // op family weights
   unsigned w_alloc = 30, w_free = 18, w_realloc = 8, w_expand = 1, w_fill = 6, w_holes = 5, w_drain = 3, w_tfree = 2, w_talloc = 1,
-           w_heap = 4, w_collect = 3, w_visit = 2, w_verify = 1, w_tick = 0, w_edge = 0, w_churn = 2;
+           w_heap = 4, w_collect = 3, w_visit = 2, w_verify = 1, w_tick = 0, w_edge = 0, w_churn = 2, w_zchain = 0;
   unsigned p_aligned = 15, p_zero = 20, p_heap_api = 25;   // percent
   unsigned p_offset = 30;       // of aligned allocs, percent with offset
   bool big_ok = true; bool zchains = false; bool arenas = false; int min_ops = 20, max_ops = 160;
@@ -124,15 +124,30 @@ struct Gen {
       case 8: return g ? g - 1 : 0; case 9: return g; case 10: return g + 1; case 11: return 2 * n; case 12: return mi_good_size(g + 1); case 13: return n + n / 4; default: return draw_size();
     }
   }
+  size_t grow_target(size_t n) {   // monotone growth: n2 >= n, drawn around usable-size / class / page-kind boundaries
+    size_t g = mi_good_size(n ? n : 1);
+    switch (ch.pick(14)) {
+      case 0: return n; case 1: return n + 1; case 2: return g > n ? g - 1 : n; case 3: return g; case 4: return g + 1; case 5: return mi_good_size(g + 1);
+      case 6: return 2 * n + 1; case 7: return n + n / 4 + 1; case 8: return n + 8; case 9: return n + ch.range(1, 64); case 10: return mi_good_size(g + 1) + 1;
+      case 11: { static const std::vector<size_t> e = { 1024, 1025, 8*KiB, 8*KiB + 1, 64*KiB, 64*KiB + 1, 512*KiB + 1 }; size_t t = ch.of(e); return t > n ? t : n + 1; }
+      case 12: return n + ch.range(1, n + 16); default: return n + 16;
+    }
+  }
+  void g_zchain() {
+    int s = -1; for (int t = 0; t < 4 && s < 0; t++) { int c = pick_live(); if (c >= 0 && sl[c].z && sl[c].n < 4*MiB) s = c; }
+    if (s < 0) { size_t before = out.size(); g_alloc(true); if (out.size() == before) return; s = next_slot - 1; if (!sl[s].live || !sl[s].z) return; }
+    int steps = (int)ch.range(1, 8);
+    for (int i = 0; i < steps && sl[s].live && sl[s].n < 8*MiB; i++) { g_realloc(s, true); if (ch.chance(1, 4)) step(); }
+  }
   void g_realloc(int s = -1, bool zero_chain = false) {
     if (s < 0) s = pick_live(); if (s < 0) { g_alloc(); return; } GSlot& g = sl[s];
-    size_t n2 = realloc_target(g.n); if (zero_chain && n2 < g.n) n2 = g.n + ch.range(0, g.n + 64);
+    size_t n2 = zero_chain ? grow_target(g.n) : realloc_target(g.n);
     if (n2 > 16*MiB && (nhuge >= 2 || live_bytes + n2 > 512*MiB)) n2 = g.n + 1;
     if (live_bytes + n2 > 600*MiB) n2 = g.n;
     bool al = (g.a > 16 || g.o != 0) ? ch.chance(3, 4) : ch.chance(pf.p_aligned, 300);
     bool zero = zero_chain || (g.z && ch.chance(3, 4)) || ch.chance(pf.p_zero, 300);
     std::string f; Op op("realloc"); op.u("s", (uint64_t)s);
-    size_t c = 1; bool has_c = false;
+    size_t c = 1; bool has_c = false; size_t oldn = g.n;
     if (al) {
       static const std::vector<std::string> za = { "rezalloc_aligned", "recalloc_aligned", "aligned_recalloc" }, zat = { "rezalloc_aligned_at", "recalloc_aligned_at", "aligned_offset_recalloc" };
       bool at = (g.o != 0) ? ch.chance(7, 8) : ch.chance(1, 4);
@@ -146,12 +161,12 @@ struct Gen {
       if ((f == "new_realloc" || f == "new_reallocn") && n2 > MiB) f = "realloc";
       has_c = (f == "reallocn" || f == "recalloc" || f == "reallocarray" || f == "reallocarr" || f == "new_reallocn");
     }
-    if (has_c && n2 > 0) { static const std::vector<size_t> cs = { 1, 2, 4, 8 }; c = ch.of(cs); size_t per = n2 / c; if (per == 0) { per = n2; c = 1; } n2 = per; }
+    if (has_c && n2 > 0) { static const std::vector<size_t> cs = { 1, 2, 4, 8 }; c = ch.of(cs); size_t per = zero_chain ? (n2 + c - 1) / c : n2 / c; if (per == 0) { per = n2; c = 1; } n2 = per; }
     op.s("f", f).u("n", n2); if (has_c) op.u("c", c);
     int h = pick_heap_api(); if (h && f != "reallocarray" && f != "reallocarr" && f.find("new_") != 0 && f != "aligned_recalloc" && f != "aligned_offset_recalloc") op.u("h", (uint64_t)h);
     out.push_back(op);
     live_bytes -= g.n; if (g.big) nhuge--; g.n = n2 * c; g.big = g.n > 16*MiB; live_bytes += g.n; if (g.big) nhuge++;
-    g.z = g.z && zero;
+    g.z = g.z && zero && (n2 * c >= oldn);
   }
   void g_expand() { int s = pick_live(); if (s < 0) return; GSlot& g = sl[s]; size_t gs = mi_good_size(g.n ? g.n : 1); static const std::vector<int> d = { -1, 0, 1 }; size_t n2 = ch.chance(1, 2) ? gs + ch.of(d) : ch.range(0, gs + 8); out.push_back(Op("expand").u("s", (uint64_t)s).u("n", n2)); }
 
@@ -212,14 +227,61 @@ struct Gen {
   void g_visit() { std::vector<int> hs; for (int i = 1; i < NHEAPS; i++) if (heaps[i].alive) hs.push_back(i); Op op("visit"); op.u("h", (uint64_t)ch.of(hs)); if (pf.stop_visits && ch.chance(1, 3)) op.u("stop", ch.range(1, 1 + 2 * live_list.size())); out.push_back(op); }
   void g_arena() { for (int i = 0; i < NARENAS; i++) if (!arena_valid[i]) { bool ex = ch.chance(1, 2); out.push_back(Op("arena").u("i", (uint64_t)i).u("size", (size_t)ch.range(2, 6) * 32*MiB).u("commit", ch.chance(1, 4)).u("excl", ex)); arena_valid[i] = true; arena_excl[i] = ex; return; } }
 
+  size_t edge_value(int kind) {
+    const size_t SM = SIZE_MAX, PM = (size_t)PTRDIFF_MAX, MA = (size_t)64*KiB * (size_t)0xFFFFFFFEu;
+    static const std::vector<size_t> ks = { 0, 1, 7, 8, 15, 16, 63, 64, 4095, 4096, 65535, 65536 };
+    size_t k = ch.chance(1, 2) ? ch.of(ks) : ch.range(0, 70000);
+    switch (kind) { case 0: return SM - k; case 1: return PM + 1 + k; case 2: return PM - k; case 3: return MA + 1 + k; case 4: return MA - k; default: return ((size_t)1 << ch.range(48, 63)) + k; }
+  }
+  void g_edge() {
+    static const std::vector<std::string> plain = { "malloc", "zalloc", "new_nothrow", "valloc", "pvalloc" };
+    static const std::vector<std::string> counted = { "calloc", "mallocn" };
+    static const std::vector<std::string> al = { "malloc_aligned", "malloc_aligned_at", "zalloc_aligned", "zalloc_aligned_at", "posix_memalign", "memalign", "aligned_alloc", "new_aligned_nothrow" };
+    static const std::vector<std::string> alc = { "calloc_aligned", "calloc_aligned_at" };
+    static const std::vector<std::string> re = { "realloc", "reallocf", "rezalloc" };
+    static const std::vector<std::string> rec = { "reallocn", "recalloc", "reallocarray", "reallocarr" };
+    static const std::vector<std::string> rea = { "realloc_aligned", "realloc_aligned_at", "rezalloc_aligned" };
+    static const std::vector<std::string> reac = { "recalloc_aligned", "recalloc_aligned_at", "aligned_recalloc" };
+    Op op("edge"); unsigned fam = (unsigned)ch.pick(8); bool is_re = fam >= 4; int s = -1;
+    if (is_re) { s = pick_live(); if (s < 0 || sl[s].n > MiB) { is_re = false; fam -= 4; } }
+    std::string f; bool has_c = false, has_a = false;
+    switch (fam) { case 0: f = ch.of(plain); break; case 1: f = ch.of(counted); has_c = true; break; case 2: f = ch.of(al); has_a = true; break; case 3: f = ch.of(alc); has_c = has_a = true; break;
+                   case 4: f = ch.of(re); break; case 5: f = ch.of(rec); has_c = true; break; case 6: f = ch.of(rea); has_a = true; break; default: f = ch.of(reac); has_c = has_a = true; }
+    // what goes wrong: 0 size too big, 1 count*size overflow, 2 bad alignment
+    std::vector<unsigned> w = { 4, has_c ? 5u : 0u, has_a ? 5u : 0u }; size_t what = ch.weighted(w);
+    size_t n = ch.range(1, 4096), c = 1, a = (size_t)1 << ch.range(3, 12), o = 0;
+    if (what == 0) { n = edge_value((int)ch.pick(6)); if (has_c) { static const std::vector<size_t> cs = { 1, 1, 2, 3 }; c = ch.of(cs); } }
+    else if (what == 1) {
+      switch (ch.pick(5)) {
+        case 0: n = ch.range(2, 1 << 20); c = SIZE_MAX / n + ch.pick(2); break;
+        case 1: n = ((size_t)1 << 32) + ch.range(0, 16); c = ((size_t)1 << 32) + ch.range(0, 16); break;
+        case 2: n = (size_t)1 << ch.range(1, 63); c = (size_t)1 << (64 - __builtin_ctzll(n)); if (c == 0) c = 2; break;   // product = 2^64
+        case 3: n = SIZE_MAX; c = ch.range(2, 9); break;
+        default: c = SIZE_MAX / 2 + 1 + ch.range(0, 8); n = ch.range(2, 64); break;
+      }
+      if (ch.chance(1, 2)) std::swap(n, c);
+    } else {
+      static const std::vector<size_t> bad = { 0, 3, 5, 6, 7, 12, 24, 48, 100, 1000, 4095, 4097, 65535, 65537, ((size_t)1 << 63) + 1, SIZE_MAX, SIZE_MAX - 1, ((size_t)1 << 32) + 1, ((size_t)1 << 32) - 1 };
+      a = ch.of(bad);
+    }
+    if (f.find("_at") != std::string::npos) o = ch.chance(1, 2) ? 0 : ch.range(0, 4096);
+    op.s("f", f).u("n", n); if (has_c) op.u("c", c); if (has_a) op.u("a", a); if (o) op.u("o", o); if (is_re) op.u("s", (uint64_t)s);
+    int h = pick_heap_api(); bool heapable = !(f == "new_nothrow" || f == "valloc" || f == "pvalloc" || f == "posix_memalign" || f == "memalign" || f == "aligned_alloc" || f == "new_aligned_nothrow" || f == "reallocarray" || f == "reallocarr" || f == "aligned_recalloc");
+    if (h && heapable) op.u("h", (uint64_t)h);
+    out.push_back(op);
+    if (is_re && f == "reallocf") note_free(s);
+  }
+
   void step() {
-    std::vector<unsigned> w = { pf.w_alloc, pf.w_free, pf.w_realloc, pf.w_expand, pf.w_fill, pf.w_holes, pf.w_drain, pf.w_tfree, pf.w_talloc, pf.w_heap, pf.w_collect, pf.w_visit, pf.w_verify, pf.w_tick, pf.w_churn };
+    std::vector<unsigned> w = { pf.w_alloc, pf.w_free, pf.w_realloc, pf.w_expand, pf.w_fill, pf.w_holes, pf.w_drain, pf.w_tfree, pf.w_talloc, pf.w_heap, pf.w_collect, pf.w_visit, pf.w_verify, pf.w_tick, pf.w_churn, pf.w_edge, pf.w_zchain };
     switch (ch.weighted(w)) {
       case 0: g_alloc(); break; case 1: g_free(); break; case 2: g_realloc(); break; case 3: g_expand(); break; case 4: g_fill(); break;
       case 5: g_range_free("rfree", 0); break; case 6: g_range_free("rfree", 1); break; case 7: g_range_free("tfree", (int)ch.pick(2)); break; case 8: g_talloc(); break;
       case 9: if (pf.arenas && ch.chance(1, 6)) g_arena(); else g_heap(); break; case 10: g_collect(); break; case 11: g_visit(); break; case 12: out.push_back(Op("verify")); break;
       case 13: { static const std::vector<size_t> ms = { 1, 5, 11, 50, 101, 1000, 5000 }; out.push_back(Op("tick").u("ms", ch.of(ms))); break; }
-      default: g_churn(); break;
+      case 14: g_churn(); break;
+      case 15: g_edge(); break;
+      default: g_zchain(); break;
     }
   }
   Case history() { int nops = (int)ch.range((uint64_t)pf.min_ops, (uint64_t)pf.max_ops); while ((int)out.size() < nops && !ch.exhausted()) step(); return out; }
